@@ -306,7 +306,7 @@ func (c *Ctx) CallArgs(callee string, idx int, allowed ...string) bool {
 	for fn, ins := range c.CallersMatching(callee) {
 		for _, in := range ins {
 			n++
-			args := in.(ssa.CallInstruction).Common().Args
+			args := BaselineArgs(in.(ssa.CallInstruction).Common())
 			if idx >= len(args) {
 				continue
 			}
